@@ -27,7 +27,9 @@ REQUIRED = ["kind.dynamic", "kind.static", "kind.lanelet", "kind.network", "kind
             "op.obstacle.translate_rotate", "op.prediction.translate_rotate", "op.trajectory.translate_rotate",
             "op.prediction=", "op.update_prediction", "op.trajectory=", "op.shape=", "op.update_initial_state",
             "op.network.translate_rotate", "op.add_lanelet", "op.remove_lanelet", "op.scenario.translate_rotate",
-            "op.cycle_elements=", "op.element-edit", "op.time_offset=", "history-model-checked"]
+            "op.cycle_elements=", "op.element-edit", "op.time_offset=", "history-model-checked",
+            "op.add_lanelet-deferred", "op.remove_lanelet-deferred", "op.lanelet.translate_rotate",
+            "network.built-without-index"]
 EXHAUSTIVE = {"quick": "per object kind: all mutator sequences of length <= 2 (each step followed by the full query battery)",
               "thorough": "per object kind: all mutator sequences of length <= 3"}
 ASSUMPTIONS = ["direct assignment to vertices or shape parameters is not in the statement's mutator list",
@@ -272,11 +274,18 @@ def run(ctx):
         return bad
 
     NET_OPS = ["network.translate_rotate", "add_lanelet", "remove_lanelet", "scenario.translate_rotate",
-               "lanelet.translate_rotate"]
+               "add_lanelet-deferred", "remove_lanelet-deferred", "lanelet.translate_rotate"]
 
-    def run_net(rng, ops, in_scenario):
+    def run_net(rng, ops, in_scenario, deferred_build=False):
         lanelets, _ = lattice.gen_lanelets(rng, nmax=4)
-        net = LaneletNetwork.create_from_lanelet_list(lanelets)
+        if deferred_build and not in_scenario:
+            # built lanelet by lanelet WITHOUT an index (rtree=False) and not queried before the first mutation
+            net = LaneletNetwork()
+            for la_ in lanelets:
+                net.add_lanelet(la_, rtree=False)
+            ctx.feature("network.built-without-index")
+        else:
+            net = LaneletNetwork.create_from_lanelet_list(lanelets)
         sc = None
         if in_scenario:
             sc = Scenario(0.1)
@@ -284,8 +293,9 @@ def run(ctx):
             sc.add_objects(StaticObstacle(900, ObstacleType.PARKED_VEHICLE, Rectangle(2.0, 1.0), st.InitialState(
                 time_step=0, position=np.array([0.0, 0.0]), orientation=0.0)))
             net = sc.lanelet_network
-        pts, shapes = probes(net, rng)
-        query_net(net, pts, shapes)
+        if not (deferred_build and not in_scenario):
+            pts, shapes = probes(net, rng)
+            query_net(net, pts, shapes)
         done = []
         nid = 500
         for op in ops:
@@ -299,7 +309,24 @@ def run(ctx):
                         continue
                     sc.translate_rotate(t, a)
                 elif op == "lanelet.translate_rotate":
-                    continue  # moving a single member lanelet of a network is not a network-level mutator
+                    # "translate_rotate on any level": a member lanelet moved through its own method
+                    if deferred_build and not in_scenario and not done:
+                        continue  # a network that never built its index cannot be queried at all (documented usage)
+                    rng.choice(net.lanelets).translate_rotate(t, a)
+                elif op in ("add_lanelet-deferred", "remove_lanelet-deferred"):
+                    if sc is not None:
+                        continue
+                    if op.startswith("add"):
+                        nid += 1
+                        net.add_lanelet(lattice.lanelet(nid, lattice.strip(rng, lattice.q(rng, -5, 5), lattice.q(rng, -5, 5),
+                                                                           3, 2.0, 3.0)), rtree=False)
+                    else:
+                        if len(net.lanelets) < 2:
+                            continue
+                        net.remove_lanelet(rng.choice(net.lanelets).lanelet_id, rtree=False)
+                    # the deferred operation is completed by the next indexing operation (documented batch usage)
+                    nid += 1
+                    net.add_lanelet(lattice.lanelet(nid, lattice.strip(rng, 70.0 + nid, 70.0, 2, 2.0, 2.0, wobble=False)))
                 elif op == "add_lanelet":
                     nid += 1
                     new = lattice.lanelet(nid, lattice.strip(rng, lattice.q(rng, -5, 5), lattice.q(rng, -5, 5), 3, 2.0, 3.0))
@@ -407,8 +434,8 @@ def run(ctx):
             seq = [rng.choice(DYN_OPS) for _ in range(L)]
             run_dynamic(rng, seq, "rnd")
         elif kind in ("network", "scenario"):
-            seq = [rng.choice(NET_OPS[:4]) for _ in range(L)]
-            run_net(rng, seq, kind == "scenario")
+            seq = [rng.choice(NET_OPS[:6] if i % 4 else NET_OPS) for _ in range(L)]
+            run_net(rng, seq, kind == "scenario", deferred_build=(i % 3 == 1))
         elif kind == "cycle":
             seq = [rng.choice(CYC_OPS) for _ in range(L)]
             run_cycle(rng, seq)
